@@ -115,8 +115,10 @@ def run(ctx):
         hists += [list(h) for h in itertools.product(BEHAVIOURS, repeat=n)]
     with ThreadPoolExecutor(max_workers=12) as ex:
         results = list(ex.map(lambda h: run_history(ctx, h), hists))
-    # the unix-socket listener shares the accept path: depth <= 1 there
+    # the unix-socket listener shares the accept path: depth <= 1 there (quick), <= 2 (thorough)
     uh = [[]] + [[b] for b in BEHAVIOURS]
+    if not ctx.quick:
+        uh += [list(h) for h in itertools.product(BEHAVIOURS, repeat=2)]
     with ThreadPoolExecutor(max_workers=8) as ex:
         uresults = list(ex.map(lambda h: run_history(ctx, h, "unix"), uh))
     for listen, hs, rs in (("tcp", hists, results), ("unix", uh, uresults)):
